@@ -18,9 +18,14 @@ def build_cli():
     return os.path.join(tdir, "release", "circomspect")
 
 
+def _cli_limits():
+    import resource
+    resource.setrlimit(resource.RLIMIT_AS, (8 << 30, 8 << 30))   # a run that needs more than 8 GB dies instead of eating the machine
+
+
 def run_cli(exe, args, cwd, timeout=60):
     try:
-        p = subprocess.run([exe] + args, cwd=cwd, capture_output=True, text=True, timeout=timeout)
+        p = subprocess.run([exe] + args, cwd=cwd, capture_output=True, text=True, timeout=timeout, preexec_fn=_cli_limits)
         return p.returncode, p.stdout, p.stderr
     except subprocess.TimeoutExpired:
         return None, "", "TIMEOUT"
